@@ -21,6 +21,8 @@ View == /\ IsEv("view") /\ E.phase = "iter" /\ E.exc = ""
            /\ (E.len >= 0 => E.len = Len(want))                    \* len agrees
            /\ (E.hasget = 1 => E.get = want)                       \* the i-th item is what get(i) returns
            /\ (E.hasgetn = 1 => E.getn = Reverse(want))
+           /\ (E.hasasg = 1 => E.asg = want)                      \* a Range / Slice / Zip assigned from this one iterates like it
+           /\ (E.hasshown = 1 => E.shown = want)                  \* show lists the items in iteration order
            /\ \A k \in 1..Len(E.oob) : E.oob[k][2] = "IndexOutOfBoundsError"     \* positions outside the view are refused (C12)
            /\ \A k \in 1..Len(E.mems) :                          \* mem(view, x) holds exactly for the items the view yields
                  E.mems[k][2] = (IF \E p \in 1..Len(want) : want[p] = E.mems[k][1] THEN 1 ELSE 0)
